@@ -1392,6 +1392,16 @@ _vbi_cache_foreach_page		(vbi_cache *		ca,
 
 		subno += dir;
 
+		/* Still on the same page: when we start below the lowest
+		   (forward) or above the highest (backward) cached subpage
+		   continue with that subpage, not with the next page. */
+		if (ps->n_subpages > 0) {
+			if (dir > 0 && subno < ps->subno_min)
+				subno = ps->subno_min;
+			else if (dir < 0 && subno > ps->subno_max)
+				subno = ps->subno_max;
+		}
+
 		while (0 == ps->n_subpages
 		       || subno < ps->subno_min
 		       || subno > ps->subno_max) {
